@@ -254,11 +254,12 @@ ADDED = {
     "C15": " The map helper is followed when the loop uses its return value; file-writing helpers are recorded, not followed.",
     "C17": " Every create_*_csv.py is executed abstractly at module level: the columns of one family are derived alike from one raw column each.",
     "C18": " The evaluated fill reads shared priority tables of other classes and series summed before indexing; the re-timed series is what the "
-           "returned monthly constants carry; every potential increase of the bump is within the head-room of its series on every path.",
+           "returned monthly constants carry; every potential increase of the bump is within the head-room of its series on every path and the "
+           "granted total is split in proportion to the potential increases.",
 }
 ROBUST = (" The rules read a canonical form of the syntax trees (comparison orientation, if/else polarity, else-after-return, keyword/positional "
           "arguments, range(0, n), method values) named tuples, tuple parameters; renamed parameters and methods are read under the names of the reference tree) and statement-level inlined helpers, so behaviour-preserving rewrites do not change the verdict "
-          "(215 sub-agent refactorings, 14 corrected twins of seeded refactorings and 18 kinds of whole-tree probes are replayed by the thorough tier).")
+          "(215 sub-agent refactorings, 15 corrected twins of seeded refactorings and 18 kinds of whole-tree probes are replayed by the thorough tier).")
 
 
 def main():
